@@ -2894,7 +2894,7 @@ protected:
 				if (round || sticky) ++raw;
 				if (raw == (1ull << fbits)) { // overflow
 					++exponent;
-					raw >>= 1u;
+					raw = 0; // the fraction of 1.0 * 2^exponent
 				}
 			}
 		}
